@@ -136,6 +136,15 @@ Theorem C05_reuse_history_answers : forall ws n cap mw ms c0 U ops, WlruProofs.s
     r = fc_spec ws1 (quorum_of ws1) n1 E a b.
 Proof. exact reuse_history_answers. Qed.
 
+(* Round 6: a Reset onto a new, empty database (abft at every epoch seal) may come with ANY validator count:
+   the reused object is then exactly a new index for n' validators (C05_reuse_history_answers already ranges
+   over RResetFresh ws' n' with n' <> n) *)
+Theorem C05_reset_fresh_is_init : forall n' ce,
+  ce_view (ce_reset_fresh n' ce) = init n' /\ fc_items (ce_fc (ce_reset_fresh n' ce)) = [] /\
+  Wlru.c_entries (ce_hbc (ce_reset_fresh n' ce)) = [] /\ Wlru.c_entries (ce_lac (ce_reset_fresh n' ce)) = [] /\
+  ce_dirty (ce_reset_fresh n' ce) = false.
+Proof. exact reset_fresh_is_init. Qed.
+
 (* the executable hypothesis check run by the driver on every generated stream *)
 Theorem C05_wf_check_is_hypothesis : forall n E e, wf_evb n E e = true <-> wf_ev n E e.
 Proof. exact wf_evb_iff. Qed.
@@ -244,3 +253,4 @@ Print Assumptions C05_vector_caches_transparent.
 Print Assumptions C05_engine_history_answers.
 Print Assumptions C05_restart_is_not_drop.
 Print Assumptions C05_reuse_history_answers.
+Print Assumptions C05_reset_fresh_is_init.
